@@ -372,11 +372,7 @@ class Executor(ExprMixin, StmtMixin, Engine):
                     arr = z3.Store(z3.Store(arr, 0, first), 1, second)
                     return mk_list(TList(STR), z3.If(has, 2, 1), arr)
             if len(pos) == 1:
-                r = fresh(TList(STR), 'parts')
-                st.assume(list_len(r) >= 1)
-                cnt = self.call_ufunc_auto('str_count', [s, sep], INT, st=st, facts='count')
-                st.assume(list_len(r) == cnt.e + 1)
-                return r
+                return self.split_value(st, s, sep)
         if name == 'join':
             lst = pos[0]
             if isinstance(lst.t, TList) and isinstance(lst.t.elem, TStr):
@@ -1174,6 +1170,9 @@ class Executor(ExprMixin, StmtMixin, Engine):
             self.local_types[gname] = gt
         self.ghost_hits = set()
         self.call_assert_hits = set()
+        if c.yield_asserts and getattr(c, 'yield_type', None) is not None:
+            # ghost('__last_yield__'): the value yielded before the current one (unknown before the first yield)
+            st.ghost['__last_yield__'] = self.fresh_val(st, c.yield_type, 'lasty')
         old = st.fork()
         st.ghost['__entry_heap__'] = dict(old.heap)
         self.fn_old = old
